@@ -8,8 +8,7 @@ ID = "C20"
 COQ_FILES = ["Common/Corr.v", "Model/Options.v", "Model/ProtocOptions.v", "Proofs/Options.v", "Props/C20.v"]
 PROPS = "Props/C20.v"
 THEOREMS = ["C20_scalar_coercion_ranges", "C20_noninteger_rejected", "C20_int_to_float", "C20_bool_coercion",
-            "C20_interpret_eq_protoc_partial", "C20_interpret_eq_protoc_refuted", "C20_interpret_eq_protoc_refuted_float_words",
-            "C20_no_uninterpreted_left_on_success"]
+            "C20_interpret_eq_protoc", "C20_no_uninterpreted_left_on_success"]
 AXIOMS_OK = []
 TRUSTED = ["hand-written Gallina mirror of options/options.go (interpretOptions, interpretField, setOptionField, fieldValue, "
            "scalarFieldValue, enumFieldValue, messageLiteralValue, checkFieldUsage): coq/Model/Options.v",
@@ -27,29 +26,11 @@ ASSUMPTIONS = ["modelled fragment: scalar kinds, enums (open/closed), message-ty
                "oneof conflicts across option statements are rejected (documented divergence from protoc, protobuf issue 9125): spec follows the project",
                "float literals reach the model as the float64 the parser computed (decimal conversion is C14/C39); float32 rounding is modelled exactly"]
 
-CHKS = ["opt_chk_strict", CHK_LENIENT, CHK_UNLINKED, "spec_chk", "spec_chk_nowords", "spec_chk_known"]
+CHKS = ["opt_chk_strict", "opt_chk_lenient", "opt_chk_unlinked", "spec_chk", "spec_chk_nowords"]
 DEFS = """
-(* A disagreement with the specification is attributed to fields without presence when the implementation
-   behaves exactly like the mirror model and the mirror model agrees with the specification once every field
-   of the schema is given presence. *)
-Definition explicit_field (f : field) : field :=
-  mkField (fname f) (fnum f) (fkind f) (frep f) (foneof f) false (ftargets f).
-Definition explicit_schema (sch : schema) : schema :=
-  mkSchema (map (fun d => mkMsg (map explicit_field (mfields d))) (smsgs sch)) (senums sch)
-           (map (fun x => mkExt (xname x) (xextendee x) (explicit_field (xfield x))) (sexts sch)).
-(* the specification without protoc's case-insensitive float words inside message literals (L1) *)
+(* the specification without protoc's case-insensitive float words inside message literals (L1): when the
+   implementation agrees with this variant but not with the specification, the defect repaired by bb1a10d1 is back *)
 Definition spec_chk_nowords (c : opt_case) : bool := spec_chk_gen false c.
-Definition spec_chk_known (c : opt_case) : bool :=
-  spec_chk c ||
-  match c with
-  | OC sch tg T stmts os _ _ =>
-    negb (schema_explicit sch) && opt_chk_strict c &&
-    match interpret_strict (explicit_schema sch) tg T [] stmts, protoc_interpret sch tg true T [] stmts with
-    | Err _, Err _ => true
-    | Ok (m, _), Ok m' => mval_eqb m m'
-    | _, _ => false
-    end
-  end.
 """
 
 
@@ -156,7 +137,6 @@ def run(ctx):
     if err:
         raise RuntimeError(err)
     spec_bad = set(res["spec_chk"])
-    known_bad = set(res["spec_chk_known"])
     nowords_bad = set(res["spec_chk_nowords"])
     for i in sorted(spec_bad):
         klass, c, o = meta[i]
@@ -167,7 +147,7 @@ def run(ctx):
                           "inside a message literal a float or double field does not take inf / infinity / nan in another letter case "
                           "(Infinity, INF, NaN ...) unless a minus sign precedes it; protoc's text format reads them in any letter case",
                           {"proto": text, "files": c["files"], "observed": obs})
-        elif i not in known_bad:
+        elif o["strictm"].get("ok") and implicit_zero_then_again(c["sch"], c["stmts"]):
             ctx.violation("option-set-twice-on-field-without-presence",
                           "an option field without presence (proto3, not optional) that was set to its zero value is accepted a second time; protoc reports it as already set",
                           {"proto": text, "files": c["files"], "observed": obs})
@@ -176,8 +156,8 @@ def run(ctx):
             ctx.violation("differs-from-protoc-spec", "implementation and protoc specification disagree: " + what,
                           {"proto": text, "files": c["files"], "observed": obs})
     for name, corr in (("opt_chk_strict", "options:interpretField/setOptionField/fieldValue (strict)"),
-                       (CHK_LENIENT, "options:interpretOptions (lenient)"),
-                       (CHK_UNLINKED, "options:interpretOptions (unlinked)")):
+                       ("opt_chk_lenient", "options:interpretOptions (lenient)"),
+                       ("opt_chk_unlinked", "options:interpretOptions (unlinked)")):
         for i in res[name]:
             klass, c, o = meta[i]
             ctx.corr_break(corr, {"proto": c["files"]["t.proto"], "files": c["files"]},
@@ -185,9 +165,8 @@ def run(ctx):
     ctx.extra["unmodelled_cases"] = unmodelled
     ctx.extra["panics_observed"] = panics
     if panics:
-        ctx.notes.append("%d case(s): the interpreter panics (dynamicpb: field descriptor does not belong to this message) on a message "
-                         "literal that names an extension of another message; the compiler turns it into an error, so the statement is "
-                         "rejected as the specification demands; InterpretOptions / InterpretOptionsLenient called directly panic" % panics)
+        ctx.notes.append("%d case(s): the option interpreter panicked (before 36246e7a: a message literal naming an extension of another "
+                         "message); the model has no panic, these cases are correspondence breaks" % panics)
 
     # the specification's ground truth: protoc's own output for the option test files of the repository
     gold_dir = os.path.join(REPO, "internal", "testdata", "options")
